@@ -101,7 +101,7 @@ def _sort_parser(values, k):
     if err:
         return err, k
     values = np.array(tuple(flatten(
-        values, lambda v: not isinstance(v, (str, bool))
+        values, lambda v: not isinstance(v, (str, bool, np.bool_))
     )), float)
     values.sort()
     return values, replace_empty(k)
